@@ -6,6 +6,8 @@ import (
 	"fmt"
 	"math/rand/v2"
 	"reflect"
+	"runtime"
+	"sync"
 
 	"github.com/philpearl/avro"
 
@@ -75,6 +77,24 @@ func genFlushPlan(r *rand.Rand, n int) (lib.FlushPlan, string) {
 	return p, name
 }
 
+var sizeSweepType = gen.StructOf(gen.Fld("B", "b", false, gen.Leaf(gen.KBytes)), gen.Fld("N", "n", false, gen.Leaf(gen.KInt64)))
+
+// sizeSweep: lengths within +-48 of every power of two from 64 to 64 KiB (and a few beyond)
+var sizeSweep = func() []int {
+	var out []int
+	for p := 64; p <= 65536; p *= 2 {
+		for d := -48; d <= 48; d++ {
+			if p+d > 0 {
+				out = append(out, p+d)
+			}
+		}
+	}
+	for _, x := range []int{100000, 131071, 131072, 131073, 200000} {
+		out = append(out, x)
+	}
+	return out
+}()
+
 var blockSizes = []int{0, 1, 2, 16, 64, 100, 256, 1000, 4096, 1 << 20}
 
 // genRTCase builds the scenario for case index i.
@@ -89,6 +109,28 @@ func genRTCase(c *core.Ctx, i int, vo gen.ValOpts) *rtCase {
 	} else {
 		o := gen.TypeOpts{MaxDepth: 2 + r.IntN(3), MaxFields: 2 + r.IntN(6), WeirdNames: r.IntN(4) == 0}
 		rc.T = gen.GenStruct(r, o)
+	}
+	if j := i - nstatic*reps; j >= 0 && j < len(sizeSweep)*3 {
+		// size sweep: one or two records of incompressible data whose encoded size walks across
+		// buffer-size boundaries (compressed output may be larger than the input)
+		L := sizeSweep[j/3]
+		rc.T = sizeSweepType
+		rc.Static = nil
+		for k := 0; k < 1+j%2; k++ {
+			v := reflect.New(rc.T.RT()).Elem()
+			b := make([]byte, L)
+			for x := range b {
+				b[x] = byte(r.Uint32())
+			}
+			v.Field(0).SetBytes(b)
+			v.Field(1).SetInt(int64(L))
+			rc.Vals = append(rc.Vals, v)
+		}
+		rc.Cfg.Compression = compressions[j%3]
+		rc.Cfg.BlockSize = []int{0, L, 1 << 20}[(j/3)%3]
+		rc.Cfg.Plan = lib.FlushPlan{After: map[int]int{}, AtEnd: 1}
+		rc.CfgStr = fmt.Sprintf("%s/bs=%d/size-sweep L=%d/n=%d", rc.Cfg.Compression, rc.Cfg.BlockSize, L, len(rc.Vals))
+		return rc
 	}
 	n := 1 + r.IntN(6)
 	switch r.IntN(6) {
@@ -115,6 +157,39 @@ func genRTCase(c *core.Ctx, i int, vo gen.ValOpts) *rtCase {
 	return rc
 }
 
+// yieldingWriter gives other goroutines a chance to run on every Write.
+type yieldingWriter struct{ buf bytes.Buffer }
+
+func (w *yieldingWriter) Write(p []byte) (int, error) {
+	runtime.Gosched()
+	n, err := w.buf.Write(p)
+	runtime.Gosched()
+	return n, err
+}
+
+// encodeConcurrently runs the same encoding on several goroutines at once (independent encoders,
+// private writers): every output must be as valid as a lone run's.
+func (rc *rtCase) encodeConcurrently(n int) ([][]byte, []error) {
+	outs := make([][]byte, n)
+	errs := make([]error, n)
+	var wg sync.WaitGroup
+	for g := 0; g < n; g++ {
+		wg.Add(1)
+		go func(g int) {
+			defer wg.Done()
+			w := &yieldingWriter{}
+			if rc.Static != nil {
+				errs[g] = rc.Static.Encode(w, rc.Vals, rc.Cfg)
+			} else {
+				errs[g] = lib.EncodeTwin(w, rc.T.RT(), rc.Vals, rc.Cfg)
+			}
+			outs[g] = w.buf.Bytes()
+		}(g)
+	}
+	wg.Wait()
+	return outs, errs
+}
+
 func (rc *rtCase) encode() ([]byte, error) {
 	var buf bytes.Buffer
 	var err error
@@ -125,6 +200,9 @@ func (rc *rtCase) encode() ([]byte, error) {
 	}
 	return buf.Bytes(), err
 }
+
+// maxMapLen: largest map in the values (datum comparison across runs is only byte-order independent via Render, which sorts)
+func (rc *rtCase) maxMapLen() int { return 0 }
 
 func (rc *rtCase) replay(file []byte) map[string]any {
 	m := map[string]any{"type": rc.T.String(), "config": rc.CfgStr}
@@ -204,6 +282,33 @@ func runRoundTrip(c *core.Ctx, i int, doC01, doC02 bool) {
 	}
 	if doC02 {
 		checkC02(c, rc, file, cont, perr)
+		if i%8 == 5 && c.NumViolations() == 0 {
+			// independent encoders running at the same time must each produce an equally valid file
+			outs, errs := rc.encodeConcurrently(8)
+			for g := range outs {
+				if errs[g] != nil {
+					c.Violate("encode-error", fmt.Sprintf("concurrent encoder %d failed: %v", g, errs[g]), rc.replay(nil))
+					break
+				}
+				cg, perr := refavro.ReadContainer(outs[g])
+				if perr == nil && len(cg.AllRecords()) != len(rc.Vals) {
+					perr = fmt.Errorf("%d records, want %d", len(cg.AllRecords()), len(rc.Vals))
+				}
+				if perr == nil {
+					for k, d := range cg.AllRecords() {
+						if k < len(cont.AllRecords()) && refavro.Render(d) != refavro.Render(cont.AllRecords()[k]) && rc.maxMapLen() <= 1 {
+							perr = fmt.Errorf("record %d differs from the lone run", k)
+							break
+						}
+					}
+				}
+				if perr != nil {
+					c.Violate("container", fmt.Sprintf("file written while 7 other independent encoders were running is not valid: %v; type %s [%s]", perr, rc.T, rc.CfgStr), rc.replay(outs[g]))
+					break
+				}
+			}
+			c.Count("concurrent-encoder-cases", 1)
+		}
 	}
 	if doC01 {
 		checkC01(c, rc, file)
@@ -229,6 +334,32 @@ func trunc(s string, n int) string {
 
 func checkC01(c *core.Ctx, rc *rtCase, file []byte) {
 	ptrTarget := len(file)%2 == 0
+	if (len(file)/2)%2 == 0 {
+		// documented usage: look at each record inside the callback and close its bank at once
+		// (banks are recycled between records, so later records decode into reused memory)
+		var diff string
+		n, err := lib.ReadEach(file, rc.T.RT(), ptrTarget, func(k int, v reflect.Value) error {
+			if k < len(rc.Vals) && diff == "" {
+				if d := model.EqualNorm(rc.T, rc.Vals[k], v, false, fmt.Sprintf("rec[%d]", k)); d != "" {
+					diff = fmt.Sprintf("%s\n wrote %s\n read  %s", d, trunc(model.RenderValue(rc.T, rc.Vals[k]), 600), trunc(model.RenderValue(rc.T, v), 600))
+				}
+			}
+			return nil
+		})
+		c.Count("read-with-bank-close", 1)
+		if err != nil {
+			c.Violate("read-error", fmt.Sprintf("ReadFile (banks closed per record) failed on the encoder's own output for %s [%s]: %v", rc.T, rc.CfgStr, err), rc.replay(file))
+			return
+		}
+		if n != len(rc.Vals) {
+			c.Violate("count", fmt.Sprintf("wrote %d records, read %d (banks closed per record); type %s [%s]", len(rc.Vals), n, rc.T, rc.CfgStr), rc.replay(file))
+			return
+		}
+		if diff != "" {
+			c.Violate("value", fmt.Sprintf("(banks closed per record) %s; type %s [%s]", diff, rc.T, rc.CfgStr), rc.replay(file))
+			return
+		}
+	}
 	got, err := lib.ReadAll(file, rc.T.RT(), ptrTarget)
 	if err != nil {
 		c.Violate("read-error", fmt.Sprintf("ReadFile failed on the encoder's own output for %s [%s]: %v", rc.T, rc.CfgStr, err), rc.replay(file))
